@@ -56,7 +56,8 @@ ASSUMPTIONS = ['the evaluator only returns jobs taken from `required` (ev_ok); g
 
 _ROOT = os.path.dirname(os.path.dirname(os.path.dirname(os.path.abspath(__file__))))
 _BUILD = os.environ.get('VERIF_BUILD', os.path.join(_ROOT, 'build'))
-_COV = {'problems': 0, 'planned_pairs': 0, 'groups': {}, 'skipped_over_cap': 0, 'learning_failures': 0, 'inherited': {}}
+_COV = {'problems': 0, 'planned_pairs': 0, 'groups': {}, 'skipped_over_cap': 0, 'learning_failures': 0, 'inherited': {},
+        'rejected_inputs': {}}
 _SEEN = {}
 
 
@@ -79,6 +80,12 @@ def _run_solve(cases, tag):
             r = json.loads(line)
             res[r['id']] = {'panic': r['panic']} if 'panic' in r else r['res']
     return res
+
+
+def input_rejected(impl):
+    """the harness could not even build the problem / configuration (reader validation, config builder): the generated INPUT is
+    outside the statement ("a valid problem"); not a verdict about the solver (counted in the coverage, reported to the generator)"""
+    return isinstance(impl, dict) and 'error' in impl and str(impl['error']).startswith(('read:', 'config:'))
 
 
 def _doc_hash(s):
@@ -158,6 +165,11 @@ def generate(rng, tier, n):
             r = learned.get(c['id'])
             N, seed = c['config']['max_generations'], c['config']['seed']
             extras = extras_of(c['config'])
+            if input_rejected(r):
+                # the generated problem does not pass the real validation (generator defect, e.g. E1304 with the 'reloads'
+                # feature): not a case of this property; take the next problem
+                _COV['rejected_inputs'][str(r['error'])[:60]] = _COV['rejected_inputs'].get(str(r['error'])[:60], 0) + 1
+                continue
             info = sites_info(r.get('poll_sites') or []) if isinstance(r, dict) and e2e.outcome(r) == 'solution' else None
             group = '%s/N%d/s%d%s' % (hashlib.sha256(json.dumps(c['problem'], sort_keys=True).encode()).hexdigest()[:10], N, seed,
                                       '/' + hashlib.sha256(json.dumps(extras, sort_keys=True).encode()).hexdigest()[:6] if extras else '')
@@ -237,8 +249,8 @@ def model_term(c, impl):
 
 
 def compare(c, impl, model):
-    if e2e.outcome(impl) == 'panic':
-        return None                                  # the oracle reports it
+    if e2e.outcome(impl) == 'panic' or input_rejected(impl):
+        return None                                  # the oracle reports a panic; a rejected input is no case of this property
     _, (code, gens, metric, evo, polls) = model
     k = c['config'].get('quota_after_polls')
     if code == 9:
@@ -318,6 +330,10 @@ def oracle(c, impl):
         return _filter([{'class': e2e.panic_class(c, msg), 'what': 'solving a valid problem panicked (%s): %s' % (where, msg[:300])}])
     if N < 1:
         return []                                    # outside the statement ("a positive generation limit")
+    if input_rejected(impl):
+        # the reader's validation / the config builder rejected the generated input: outside the statement ("a valid problem")
+        _COV['rejected_inputs'][str(impl['error'])[:60]] = _COV['rejected_inputs'].get(str(impl['error'])[:60], 0) + 1
+        return []
     if e2e.outcome(impl) == 'error':
         return [{'class': 'interrupted-solve-returns-error', 'what': 'no solution document (%s): %s' % (where, str(impl.get('error'))[:300])}]
     s = impl['solution']
@@ -434,6 +450,7 @@ def extra_coverage():
         'problems_with_other_termination_criteria_combined': sum(1 for x in groups if x['other_criteria']),
         'problems_not_enumerated_because_K_exceeded_the_tier_cap_(uninterrupted_run_still_judged)': _COV['skipped_over_cap'],
         'uninterrupted_runs_that_failed_to_learn': _COV['learning_failures'],
+        'generated_inputs_rejected_by_the_reader_or_config_builder_(not_judged)': _COV['rejected_inputs'],
         'violations_inherited_from_C01_C02_C03_known_findings': _COV['inherited'],
         'per_problem': groups[:200]}}
 
